@@ -321,22 +321,55 @@ def rule_pairing(repo, rep):
     rep.check(len(oc) == 1 and "op.type" in norm(oc[0].value) and "custom_code" in norm(oc[0].value) and "op.version" in norm(oc[0].value), "C11-d", site,
               "operator codes keep (type, custom code, version)", "")
     rep.check(any(norm(s) == "op.version = version" for s in ast.walk(po) if isinstance(s, ast.Assign)), "C11-d", f"{TR}:TFLiteSubgraph.parse_operator", "reader keeps the operator version", "")
-    # operator-code map: one entry per (type, custom code); third-party custom codes accumulate under Op.Custom
+    # operator-code map: the writer registers one OperatorCode per (type, custom code, version) tuple of self.operator_codes and
+    # looks the index up again per operator. The map's key has to contain every component that distinguishes two tuples: the
+    # type, the custom code for third-party custom operators, and the version (two CPU operators of one type but different
+    # versions are two codes). Intermediate dicts must accumulate, not be recreated.
     soc = tw.func("TFLiteSerialiser.serialise_operator_code")
-    br = [n for n in soc.body if isinstance(n, ast.If) and norm(n.test) == "op_type == Op.Custom" and any("operator_code_map" in norm(x) for x in ast.walk(n))]
-    ok = len(br) == 1
-    detail = "branch for third-party custom operators not found"
-    if ok:
-        per_code = [s for s in ast.walk(br[0]) if isinstance(s, ast.Assign) and norm(s.targets[0]) == "self.operator_code_map[op_type][custom_code]"]
-        resets = [s for s in br[0].body if isinstance(s, ast.Assign) and norm(s.targets[0]) == "self.operator_code_map[op_type]"]
-        guarded = [n for n in br[0].body if isinstance(n, ast.If) and norm(n.test) == "op_type not in self.operator_code_map"]
-        uses_setdefault = any("setdefault" in norm(c) for c in calls_in(br[0]))
-        ok = (len(per_code) == 1 or uses_setdefault) and not resets and (bool(guarded) or uses_setdefault)
-        detail = "the inner per-custom-code dict is recreated for every code (only the last custom code survives -> KeyError when the operator is written)"
-    rep.check(ok, "C11-d2", f"{TW}:TFLiteSerialiser.serialise_operator_code", "custom operator codes accumulate in operator_code_map[Op.Custom][custom_code]", detail)
+
+    def chain_keys(t):
+        keys = []
+        while isinstance(t, ast.Subscript):
+            k = t.slice
+            keys = ([str(norm(e)) for e in k.elts] if isinstance(k, ast.Tuple) else [str(norm(k))]) + keys
+            t = t.value
+        return (keys if str(norm(t)) == "self.operator_code_map" else None)
+
+    stores = []
+    for st in ast.walk(soc):
+        if isinstance(st, ast.Assign) and isinstance(st.targets[0], ast.Subscript) and (isinstance(st.value, ast.Tuple) or (isinstance(st.value, ast.Dict) and st.value.keys)):
+            ks = chain_keys(st.targets[0])
+            if ks is not None and isinstance(st.value, ast.Dict):
+                k0 = st.value.keys[0]
+                ks = ks + ([str(norm(e)) for e in k0.elts] if isinstance(k0, ast.Tuple) else [str(norm(k0))])
+            if ks is not None:
+                in_custom = any(isinstance(n_, ast.If) and norm(n_.test) == "op_type == Op.Custom" and any(x is st for b in n_.body for x in ast.walk(b)) for n_ in ast.walk(soc))
+                stores.append((in_custom, ks, st))
+    if len(stores) < 2:
+        raise AnalysisError("serialise_operator_code: operator_code_map registrations not found")
+    for in_custom, ks, st in stores:
+        need = {"op_type", "version"} | ({"custom_code"} if in_custom else set())
+        rep.check(need <= set(ks), "C11-d2", f"{TW}:TFLiteSerialiser.serialise_operator_code",
+                  f"the {'third-party custom' if in_custom else 'builtin'} operator code is registered under every component that distinguishes two codes ({sorted(need)})",
+                  f"`{str(norm(st.targets[0]))}` omits {sorted(need - set(ks))}: two operator codes that differ only in it share one entry, the later one wins, and operators of the other "
+                  "code are written with its index (demonstrated for the version: L2_NORMALIZATION v1 and v2 on the CPU are both written as v2)")
+    resets = [st for st in ast.walk(soc) if isinstance(st, ast.Assign) and isinstance(st.targets[0], ast.Subscript) and chain_keys(st.targets[0]) is not None and isinstance(st.value, (ast.Dict, ast.Call))
+              and not any(isinstance(n_, ast.If) and "not in self.operator_code_map" in str(norm(n_.test)) and any(x is st for b in n_.body for x in ast.walk(b)) for n_ in ast.walk(soc))]
+    rep.check(not resets, "C11-d2", f"{TW}:TFLiteSerialiser.serialise_operator_code", "inner dicts of the map are created once (under a `not in` test or with setdefault), never recreated per code",
+              f"{[str(norm(r_))[:60] for r_ in resets]}: only the last custom code survives -> KeyError when the operator is written")
     so = tw.func("TFLiteSerialiser.serialise_operator")
-    rep.check("self.operator_code_map[op.type][op.attrs.get('custom_code', '')]" in norm(so), "C11-d2", f"{TW}:TFLiteSerialiser.serialise_operator",
-              "custom operators are looked up by (type, custom code), matching the registration", "")
+    looks = [x for x in ast.walk(so) if isinstance(x, ast.Subscript) and isinstance(x.ctx, ast.Load) and chain_keys(x) is not None and not isinstance(tw.parents.get(x), ast.Subscript)]
+    if len(looks) < 2:
+        raise AnalysisError("serialise_operator: operator_code_map lookups not found")
+    for x in looks:
+        ks = chain_keys(x)
+        in_custom = "custom_code" in str(norm(x))
+        reg = [k_ for c_, k_, _ in stores if c_ == in_custom]
+        as_lookup = {"op_type": "op.type", "version": "op.version", "custom_code": "op.attrs.get('custom_code', '')"}
+        same_shape = bool(reg) and [as_lookup.get(k_, k_) for k_ in reg[0]] == ks
+        has = "op.type" in ks
+        rep.check(same_shape and has, "C11-d2", f"{TW}:TFLiteSerialiser.serialise_operator", f"lookup `{str(norm(x))[:80]}` uses the key components of the registration ({reg[0] if reg else '?'})",
+                  "lookup and registration keys differ: KeyError, or the wrong operator code, when the operator is written")
     # reader owns its constant data (rewrites edit tensor values in place)
     pt = tr.func("TFLiteSubgraph.parse_tensor")
     vals = [s for s in ast.walk(pt) if isinstance(s, ast.Assign) and norm(s.targets[0]) == "tens.values"]
